@@ -33,6 +33,7 @@ class Fn:
         self.cls = cls                # None | "K" | "L"
         self.nested_in = nested_in    # fid of the enclosing function for a nested function
         self.calls = []
+        self.dict_arg = False         # called from the top level only, with differently shaped dicts
 
     @property
     def is_method(self):
@@ -45,8 +46,12 @@ class Fn:
             return f"{fns[self.nested_in].qualname_in(fns)}.<locals>.{self.name}"
         return self.name
 
-    def ref_from(self, caller):
+    SHAPES = ["{'a': 1, 'b': 'x'}", "{'a': 1}", "{'a': 2, 'c': [1]}", "{'a': 1, 'b': 'y'}"]
+
+    def ref_from(self, caller, k=0):
         """expression calling this function from the body of `caller` (a Fn, or None for the script's top level)"""
+        if self.dict_arg:
+            return f"{self.where}.{self.name}({self.SHAPES[k % len(self.SHAPES)]})"
         if self.nested_in is not None:
             return f"{self.name}(r)"                       # only ever called by its enclosing function
         where = "main" if caller is None else caller.where
@@ -71,7 +76,7 @@ def collision_groups(fns):
     return [ids for ids in g.values() if len(ids) > 1]
 
 
-def gen_program(rnd, idx, directed_trace_types=False):
+def gen_program(rnd, idx, directed_trace_types=False, dict_shapes=False):
     """Functions of the script, then of a.py, then of b.py.  In a.py / b.py several functions share a bare name:
     methods `run` of two classes K and L, sometimes a module function `run` as well, and a nested function named like
     another module function of the same file."""
@@ -81,6 +86,10 @@ def gen_program(rnd, idx, directed_trace_types=False):
             fns.append(Fn(len(fns), "main", f"f{len(fns)}"))
         for where in ("a", "b"):
             have_nested = False
+            if dict_shapes and where == "a":
+                sh = Fn(len(fns), "a", f"shapes{len(fns)}")
+                sh.dict_arg = True
+                fns.append(sh)
             for j in range(rnd.randrange(2, 5)):
                 outer = Fn(len(fns), where, f"f{len(fns)}")
                 fns.append(outer)
@@ -94,7 +103,7 @@ def gen_program(rnd, idx, directed_trace_types=False):
         for where in ("a", "b"):
             for cls in ("K", "L"):
                 rnd.choice([f for f in fns if f.where == where and f.cls == cls]).name = "run"
-            plain = [f for f in fns if f.where == where and f.cls is None and f.nested_in is None]
+            plain = [f for f in fns if f.where == where and f.cls is None and f.nested_in is None and not f.dict_arg]
             if rnd.random() < 0.5:
                 rnd.choice(plain).name = "run"
         if directed_trace_types:
@@ -103,7 +112,8 @@ def gen_program(rnd, idx, directed_trace_types=False):
             cand[0].name = "trace_types"
         for n in fns:
             if n.nested_in is not None:
-                others = [f for f in fns if f.where == n.where and f.cls is None and f.nested_in is None and f.fid != n.nested_in]
+                others = [f for f in fns if f.where == n.where and f.cls is None and f.nested_in is None and f.fid != n.nested_in
+                          and not f.dict_arg]
                 n.name = rnd.choice(others).name
         # ---- call DAG ----
         order = {"main": 0, "a": 1, "b": 2}
@@ -114,16 +124,19 @@ def gen_program(rnd, idx, directed_trace_types=False):
             if f.nested_in is not None:
                 shadowed |= {fns[c].name for c in range(len(fns)) if fns[c].nested_in == f.nested_in}
             later = [g for g in fns if g.fid > f.fid and order[g.where] >= order[f.where] and g.nested_in is None
-                     and not (g.cls is None and g.where == f.where and g.name in shadowed)]
+                     and not g.dict_arg and not f.dict_arg and not (g.cls is None and g.where == f.where and g.name in shadowed)]
             k = rnd.choice([0, 0, 1, 1, 2])
             f.calls = children + [g.fid for g in rnd.sample(later, min(k, len(later)))]
-        callable_top = [f.fid for f in fns if f.nested_in is None]
+        callable_top = [f.fid for f in fns if f.nested_in is None and not f.dict_arg]
         top = [rnd.choice(callable_top) for _ in range(rnd.randrange(2, 6))]
         for ids in collision_groups(fns):             # every function that shares its bare name is really called
             for i in ids:
                 top.append(fns[i].nested_in if fns[i].nested_in is not None else i)
         if directed_trace_types:
             top.append([f.fid for f in fns if f.name == "trace_types" and f.nested_in is None][0])
+        for f in fns:
+            if f.dict_arg:                                  # one function, several differently shaped dicts in one session
+                top += [f.fid] * rnd.randrange(2, 5)
         rnd.shuffle(top)
         prog = {"idx": idx, "fns": fns, "top": top}
         if len(history(prog)) <= 900:
@@ -150,6 +163,8 @@ def history(prog):
 
 
 def body(f, fns, indent="    "):
+    if f.dict_arg:
+        return f"{indent}r = len(x)\n{indent}return r"
     lines = [f"{indent}r = x + len([x])"]
     for c in f.calls:
         g = fns[c]
@@ -183,6 +198,7 @@ from monkeytype.db.sqlite import SQLiteStore
 ADMIT = %r
 STYLE = %r
 DEFERRED = %r
+MAX_TD = %r
 # what the filter answers for "yes" / "no": CallTracer goes by truthiness, so any of these pairs is a legitimate filter
 ANSWERS = {"bool": (True, False), "int": (1, 0), "str": ("yes", ""), "none": (True, None),
            "match": (re.match("y", "y"), re.match("y", "n")), "list": ([0], [])}
@@ -208,6 +224,8 @@ def finish():
 class C(DefaultConfig):
     def trace_store(self):
         return STORE if DEFERRED else SQLiteStore.make_store(%r)
+    def max_typed_dict_size(self):
+        return MAX_TD
     def code_filter(self):
         return lambda code: YES if (os.path.basename(code.co_filename), code.co_qualname) in ADMIT else NO
     @contextmanager
@@ -256,8 +274,17 @@ def run_program(rnd, workdir, prog, mode, env_names=None, ending=None, deferred=
         f.write(module_src("b", fns, []))
     with open(os.path.join(d, "a.py"), "w") as f:
         f.write(module_src("a", fns, ["import b"]))
+    occurrence = [0]
+
     def call_lines(tops, indent):
-        return "\n".join(f"{indent}r = 1; {fns[t].ref_from(None)}" for t in tops) or f"{indent}pass"
+        out = []
+        for t in tops:
+            if fns[t].dict_arg:
+                out.append(f"{indent}r = 1; {fns[t].ref_from(None, occurrence[0])}")
+                occurrence[0] += 1
+            else:
+                out.append(f"{indent}r = 1; {fns[t].ref_from(None)}")
+        return "\n".join(out) or f"{indent}pass"
     calls = call_lines(prog["top"], "    " if mode == "trace-custom" else "")
     hist = history(prog)
     sessions = None
@@ -280,7 +307,7 @@ def run_program(rnd, workdir, prog, mode, env_names=None, ending=None, deferred=
     admitted = None
     style = None
     if mode in ("run-custom", "trace-custom"):
-        adm = {f.fid for f in fns if rnd.random() < 0.55 or f.name == "trace_types"}
+        adm = {f.fid for f in fns if rnd.random() < 0.55 or f.name == "trace_types" or f.dict_arg}
         for ids in collision_groups(fns):             # the filter decides differently for functions sharing a bare name
             ids = list(ids)
             rnd.shuffle(ids)
@@ -293,7 +320,7 @@ def run_program(rnd, workdir, prog, mode, env_names=None, ending=None, deferred=
         admit = {(base[fns[i].where], fns[i].qualname_in(fns)) for i in admitted}    # by co_qualname, not by bare name
         with open(os.path.join(d, f"cfg{idx}.py"), "w") as f:
             style = STYLES[idx % len(STYLES)]
-            f.write(CFG % (admit, style, bool(deferred), db, db))
+            f.write(CFG % (admit, style, bool(deferred), 3 if any(f.dict_arg for f in fns) else 0, db, db))
     env = common.sub_env({"PYTHONPATH": common.REPO + os.pathsep + common.VERIF + os.pathsep + d, "MT_DB_PATH": db})
     end_stmt, want_rc = ENDINGS[ending]
     if mode == "trace-custom":
@@ -364,7 +391,7 @@ def run_double_load(workdir, idx, order, mode, absolute=True):
     if mode == "run-custom":
         admitted = [0, 1, 2, 3]
         with open(os.path.join(d, f"cfg{idx}.py"), "w") as f:
-            f.write(CFG % ({(mod + ".py", "work"), (mod + ".py", "K.run")}, "bool", False, db, db))
+            f.write(CFG % ({(mod + ".py", "work"), (mod + ".py", "K.run")}, "bool", False, 0, db, db))
     env = common.sub_env({"PYTHONPATH": common.REPO + os.pathsep + common.VERIF + os.pathsep + d, "MT_DB_PATH": db})
     cmd = [common.PY, "-m", "monkeytype"] + (["-c", f"cfg{idx}:CONFIG"] if mode == "run-custom" else []) + \
           ["run", script if absolute else mod + ".py"]
@@ -389,3 +416,111 @@ def run_double_load(workdir, idx, order, mode, absolute=True):
             "top": seq, "sessions": None, "filter_answers": "bool" if admitted else None, "ending": None, "deferred_store": False,
             "double_load": order, "admitted": admitted, "history": hist, "rows": rows,
             "sources": {n: open(os.path.join(d, n)).read() for n in sorted(os.listdir(d)) if n.endswith(".py")}}
+
+
+def _rows(db):
+    if not os.path.exists(db):
+        return []
+    con = sqlite3.connect(db)
+    try:
+        return [list(r) for r in con.execute("SELECT module, qualname FROM monkeytype_call_traces ORDER BY rowid")]
+    except sqlite3.OperationalError:
+        return []
+    finally:
+        con.close()
+
+
+LATE_CFG = '''import os
+from monkeytype.config import DefaultConfig
+from monkeytype.db.sqlite import SQLiteStore
+ADMIT = %r
+class C(DefaultConfig):
+    def trace_store(self):
+        return SQLiteStore.make_store(%r)
+    def code_filter(self):
+        return lambda code: (os.path.basename(code.co_filename), code.co_qualname) in ADMIT
+CONFIG = C()
+'''
+
+
+def run_two_sessions(rnd, workdir, prog, kind):
+    """Two tracing sessions in ONE process, each with its own database; returns two cases (one per session / database).
+    kind 'config-appears': both sessions are `with monkeytype.trace():` (no argument); monkeytype_config is not importable
+      during the first (DefaultConfig: default filter, MT_DB_PATH) and becomes importable before the second (its CONFIG has a
+      custom filter and its own database).
+    kind 'db-path-changes': one long-lived DefaultConfig object is used for both sessions and MT_DB_PATH is changed in
+      between; each session's calls belong in the database named at the time."""
+    idx = prog["idx"]
+    fns = prog["fns"]
+    d = os.path.join(workdir, f"e2e_{idx}")
+    os.makedirs(d)
+    db1, db2 = os.path.join(d, "first.sqlite3"), os.path.join(d, "second.sqlite3")
+    names_out = os.path.join(d, "filenames.json")
+    script = f"main{idx}.py"
+    with open(os.path.join(d, "b.py"), "w") as f:
+        f.write(module_src("b", fns, []))
+    with open(os.path.join(d, "a.py"), "w") as f:
+        f.write(module_src("a", fns, ["import b"]))
+    top = prog["top"]
+    cut = max(1, len(top) // 2)
+    occurrence = [0]
+
+    def call_lines(tops, indent):
+        out = []
+        for t in tops:
+            out.append(f"{indent}r = 1; {fns[t].ref_from(None, occurrence[0])}")
+            occurrence[0] += 1 if fns[t].dict_arg else 0
+        return "\n".join(out) or f"{indent}pass"
+    admitted = None
+    late = os.path.join(d, "late")
+    if kind == "config-appears":
+        adm = {f.fid for f in fns if rnd.random() < 0.5}
+        for ids in collision_groups(fns):
+            for pos, i in enumerate(ids):
+                (adm.add if pos % 2 == 0 else adm.discard)(i)
+        admitted = sorted(adm)
+        base = {"main": script, "a": "a.py", "b": "b.py"}
+        os.makedirs(late)
+        with open(os.path.join(late, "monkeytype_config.py"), "w") as f:
+            f.write(LATE_CFG % ({(base[fns[i].where], fns[i].qualname_in(fns)) for i in admitted}, db2))
+        first = "with monkeytype.trace():"
+        between = f"sys.path.insert(0, {late!r})"
+        second = "with monkeytype.trace():"
+    else:
+        first = second = "with monkeytype.trace(CONFIG):"
+        between = f"os.environ['MT_DB_PATH'] = {db2!r}"
+    dump = ("import json as _j\n_j.dump({" + ", ".join(f"'{f.fid}': {f.code_expr(fns)}.__code__.co_filename" for f in fns)
+            + f"}}, open({names_out!r}, 'w'))\n")
+    src = (module_src("main", fns, ["import a, b", "import os, sys, monkeytype", "from monkeytype.config import DefaultConfig"])
+           + "CONFIG = DefaultConfig()\n" + first + "\n" + call_lines(top[:cut], "    ") + "\n" + between + "\n"
+           + second + "\n" + call_lines(top[cut:], "    ") + "\n" + dump)
+    with open(os.path.join(d, script), "w") as f:
+        f.write(src)
+    env = common.sub_env({"PYTHONPATH": common.REPO + os.pathsep + common.VERIF + os.pathsep + d, "MT_DB_PATH": db1})
+    cmd = [common.PY, script]
+    p = subprocess.run(cmd, cwd=d, env=env, capture_output=True, text=True, timeout=120)
+    err, filenames = None, {}
+    if p.returncode != 0 or not os.path.exists(names_out):
+        err = f"program exited {p.returncode}: {p.stderr[-600:]}"
+    else:
+        filenames = json.load(open(names_out))
+    counter = [0]
+    h1 = history_of(prog, top[:cut], counter)
+    h2 = history_of(prog, top[cut:], counter)
+    sources = {}
+    for root, _, names in os.walk(d):
+        for n in sorted(names):
+            if n.endswith(".py"):
+                sources[os.path.relpath(os.path.join(root, n), d)] = open(os.path.join(root, n)).read()
+    funcs = [{"id": f.fid, "module": "__main__" if f.where == "main" else f.where, "qualname": f.qualname_in(fns),
+              "co_name": f.name, "co_filename": filenames.get(str(f.fid)), "calls": f.calls} for f in fns]
+    common_part = {"idx": idx, "env": None, "dir": d, "cmd": " ".join(cmd), "error": err, "funcs": funcs, "top": top, "sessions": None,
+                   "filter_answers": None, "ending": None, "deferred_store": False, "sources": sources}
+    what1 = {"config-appears": "first session: monkeytype.trace() while monkeytype_config is not importable (DefaultConfig, MT_DB_PATH)",
+             "db-path-changes": "first session of one DefaultConfig object, database = MT_DB_PATH at that time"}[kind]
+    what2 = {"config-appears": "second session: monkeytype.trace() after monkeytype_config became importable (its CONFIG: custom filter, own database)",
+             "db-path-changes": "second session of the same DefaultConfig object after MT_DB_PATH was changed: its own database"}[kind]
+    c1 = dict(common_part, mode="run-default", admitted=None, history=h1, rows=_rows(db1), two_sessions=kind, session=what1)
+    c2 = dict(common_part, mode="run-default" if kind == "db-path-changes" else "trace-custom", admitted=admitted, history=h2,
+              rows=_rows(db2), two_sessions=kind, session=what2)
+    return [c1, c2]
